@@ -219,6 +219,47 @@ def gen_shadow_program(rng: random.Random) -> dict:
     return {"prog": prog, "files": {}, "tables": {}, "rom": "low", "addr": addr, "expected": exp, "labels": {}}
 
 
+def gen_expanded_incbin(rng: random.Random) -> dict:
+    """One .incbin line assembled several times (a macro applied twice, a loop, a block argument spliced twice): every copy has its own
+    start symbol (the address of that copy) and the same size symbol, read back right behind it."""
+    rom = rng.choice(["low", "high"])
+    addr = rng.choice([0x018000, 0x02FF00]) if rom == "low" else rng.choice([0xC10000, 0xC2FF00])
+    cfg = rm.config_for(rom)
+    data = rng.randbytes(rng.choice([1, 5, 16, 300]))
+    here = addr
+    exp = bytearray()
+
+    def copy_() -> None:
+        nonlocal here
+        exp.extend(data + (here & 0xFFFFFF).to_bytes(3, "little") + len(data).to_bytes(3, "little"))
+        here = rm.advance(cfg, here, len(data) + 6)
+
+    unit = [{"k": "incbin", "f": "gfx.bin"}, {"k": "data", "d": "dl", "es": [E("gfx_bin"), E("gfx_bin__size")]}]
+    how = rng.choice(["macro", "loop", "splice", "macro_in_loop"])
+    prog: list = [{"k": "org", "e": E(addr)}]
+    if how == "macro":
+        prog += [{"k": "macro", "n": "putbin", "ps": [], "b": unit}, {"k": "call", "n": "putbin", "as": []}, {"k": "data", "d": "db", "es": [E(0xEE)]}, {"k": "call", "n": "putbin", "as": []},
+                 {"k": "block", "b": [{"k": "call", "n": "putbin", "as": []}]}]
+        copy_(); exp.append(0xEE); here = rm.advance(cfg, here, 1); copy_(); copy_()       # noqa: E702
+    elif how == "loop":
+        n = rng.randint(2, 4)
+        prog += [{"k": "for", "v": "itB", "a": E(0), "b": E(n), "body": unit}]
+        for _ in range(n):
+            copy_()
+    elif how == "splice":
+        prog += [{"k": "macro", "n": "twiceb", "ps": ["pb"], "b": [{"k": "block", "b": [{"k": "splice", "n": "pb"}]}, {"k": "block", "b": [{"k": "splice", "n": "pb"}]}]},
+                 {"k": "call", "n": "twiceb", "as": [{"blk": unit}]}]
+        copy_(); copy_()       # noqa: E702
+    else:
+        prog += [{"k": "macro", "n": "putbin", "ps": ["pv"], "b": [{"k": "data", "d": "db", "es": [E("pv")]}] + unit},
+                 {"k": "for", "v": "itB", "a": E(0), "b": E(3), "body": [{"k": "call", "n": "putbin", "as": [E("itB")]}]}]
+        for i in range(3):
+            exp.append(i); here = rm.advance(cfg, here, 1); copy_()       # noqa: E702
+    if here is None:
+        return gen_expanded_incbin(rng)
+    return {"prog": prog, "files": {"gfx.bin": data}, "tables": {}, "rom": rom, "addr": addr, "expected": bytes(exp), "labels": {}}
+
+
 def check_program(res: Res, p: dict) -> None:
     src = source(p["prog"])
     digest = [(k, len(v), hash(bytes(v)) & 0xFFFFFFFF) for k, v in p["files"].items()]
@@ -308,7 +349,7 @@ def run_shard(shard: dict) -> Res:
     else:
         rng = random.Random(shard["seed"])
         for i in range(shard["n"]):
-            p = gen_shadow_program(rng) if i % 10 == 9 else gen_program(rng)
+            p = gen_shadow_program(rng) if i % 10 == 9 else gen_expanded_incbin(rng) if i % 10 == 4 else gen_program(rng)
             check_program(res, p)
             if i < 2:
                 res.sample({"rom": p["rom"], "src": source(p["prog"])[:600], "files": {k: len(v) for k, v in p["files"].items()}})
